@@ -353,6 +353,113 @@ fn pins(src: &mut Src) -> Result<String, String> {
     Ok(o)
 }
 
+// ---------------------------------------------------------------- G5 Send/Sync impls, G6 wake sites
+
+fn all_rs(dir: &std::path::Path, out: &mut Vec<std::path::PathBuf>) {
+    if let Ok(rd) = std::fs::read_dir(dir) {
+        let mut es: Vec<_> = rd.filter_map(|e| e.ok()).map(|e| e.path()).collect();
+        es.sort();
+        for p in es { if p.is_dir() { all_rs(&p, out) } else if p.extension().map(|e| e == "rs").unwrap_or(false) { out.push(p) } }
+    }
+}
+
+fn ty_head(t: &syn::Type) -> String {
+    let s = quote::quote!(#t).to_string().replace(' ', "");
+    s.split('<').next().unwrap_or("").trim_start_matches('&').to_string()
+}
+
+fn ty_enum(n: &str) -> String {
+    match n {
+        "ProdIter" => ".prodIter".into(), "WorkIter" => ".workIter".into(), "ConsIter" => ".consIter".into(), "Detached" => ".detached".into(),
+        "AsyncProdIter" => ".asyncProdIter".into(), "AsyncWorkIter" => ".asyncWorkIter".into(), "AsyncConsIter" => ".asyncConsIter".into(),
+        "AsyncDetached" => ".asyncDetached".into(), "BufRef" => ".bufRef".into(), "UnsafeSyncCell" => ".unsafeSyncCell".into(), "MRBFuture" => ".mrbFuture".into(),
+        "ConcurrentMutRingBuf" => ".concurrentMutRingBuf".into(), "LocalMutRingBuf" => ".localMutRingBuf".into(),
+        "NonNull" => ".nonNull".into(), "usize" => ".usize".into(), "bool" => ".bool".into(), "PhantomData" => ".phantomData".into(),
+        "Option" => ".option".into(), "UnsafeCell" => ".unsafeCell".into(), "I" => ".innerParam".into(), "'amutI" => ".innerParam".into(),
+        o => format!("(.other \"{o}\")"),
+    }
+}
+
+fn send_sync(src: &mut Src) -> Result<String, String> {
+    let mut files = vec![];
+    all_rs(&src.root.join("src"), &mut files);
+    let mut impls: Vec<String> = vec![];
+    let mut markers: Vec<String> = vec![];
+    let mut fields: Vec<String> = vec![];
+    let mut wakes: Vec<String> = vec![];
+    for f in files {
+        let rel = f.strip_prefix(&src.root).unwrap().to_string_lossy().to_string();
+        if rel.ends_with("verif.rs") { continue; }
+        let file = src.file(&rel)?.clone();
+        fn walk(items: &[syn::Item], rel: &str, impls: &mut Vec<String>, markers: &mut Vec<String>, fields: &mut Vec<String>) {
+            for it in items { match it {
+                syn::Item::Impl(i) => {
+                    if let Some((neg, tr, _)) = &i.trait_ {
+                        let trn = quote::quote!(#tr).to_string().replace(' ', "");
+                        let ty = ty_head(&i.self_ty);
+                        if trn == "Send" || trn == "Sync" {
+                            // bounds on the generic parameters
+                            let mut conc = false; let mut item_send = false; let mut item_sync = false; let mut inner_send = false; let mut inner_sync = false; let mut other: Vec<String> = vec![];
+                            let mut item_params: Vec<String> = vec![];
+                            // which parameter is the item type: `MutRB<Item = T>`
+                            for gp in &i.generics.params { if let syn::GenericParam::Type(tp) = gp { for b in &tp.bounds { let bs = quote::quote!(#b).to_string().replace(' ', "");
+                                if let Some(p) = bs.find("Item=") { item_params.push(bs[p + 5..].trim_end_matches('>').to_string()); } } } }
+                            let mut preds: Vec<(String, String)> = vec![];
+                            for gp in &i.generics.params { if let syn::GenericParam::Type(tp) = gp { for b in &tp.bounds { preds.push((tp.ident.to_string(), quote::quote!(#b).to_string().replace(' ', ""))); } } }
+                            if let Some(w) = &i.generics.where_clause { for p in &w.predicates { if let syn::WherePredicate::Type(pt) = p { let t = &pt.bounded_ty; for b in &pt.bounds { preds.push((quote::quote!(#t).to_string().replace(' ', ""), quote::quote!(#b).to_string().replace(' ', ""))); } } } }
+                            for (p, b) in preds {
+                                let is_item = item_params.contains(&p) || (p == "T" && ty == "UnsafeSyncCell");
+                                match b.as_str() {
+                                    "ConcurrentRB" => conc = true,
+                                    "Send" => { if is_item { item_send = true } else if p == "I" { inner_send = true } else { other.push(format!("{p}:{b}")) } }
+                                    "Sync" => { if is_item { item_sync = true } else if p == "I" { inner_sync = true } else { other.push(format!("{p}:{b}")) } }
+                                    _ if b.starts_with("MutRB") || b == "MRBIterator" || b == "AsyncIterator" || b == "Storage" || b.starts_with("Storage<") || b.starts_with("MRBIterator<") => {}
+                                    _ => other.push(format!("{p}:{b}")),
+                                }
+                            }
+                            impls.push(format!("⟨{}, .{}, {}, {conc}, {item_send}, {item_sync}, {inner_send}, {inner_sync}, [{}]⟩", ty_enum(&ty),
+                                if trn == "Send" { "send" } else { "sync" }, neg.is_some(), other.iter().map(|o| format!("\"{o}\"")).collect::<Vec<_>>().join(", ")));
+                        }
+                        if trn == "ConcurrentRB" { markers.push(ty_enum(&ty)); }
+                    }
+                }
+                syn::Item::Struct(st) => {
+                    let name = st.ident.to_string();
+                    if ["BufRef", "ProdIter", "WorkIter", "ConsIter", "Detached", "AsyncProdIter", "AsyncWorkIter", "AsyncConsIter", "AsyncDetached", "UnsafeSyncCell", "MRBFuture"].contains(&name.as_str()) {
+                        let fs: Vec<String> = st.fields.iter().map(|f| ty_enum(&ty_head(&f.ty))).collect();
+                        fields.push(format!("({}, [{}])", ty_enum(&name), fs.join(", ")));
+                    }
+                }
+                syn::Item::Mod(m) => { if let Some((_, its)) = &m.content { walk(its, rel, impls, markers, fields); } }
+                _ => {}
+            } }
+        }
+        walk(&file.items, &rel, &mut impls, &mut markers, &mut fields);
+        // wake sites
+        struct W<'a> { out: &'a mut Vec<String>, rel: &'a str }
+        impl<'a, 'ast> Visit<'ast> for W<'a> {
+            fn visit_expr_method_call(&mut self, m: &'ast syn::ExprMethodCall) {
+                let n = m.method.to_string();
+                if n == "wake" || n == "wake_by_ref" { self.out.push(format!("\"{}:{}\"", self.rel, n)); }
+                syn::visit::visit_expr_method_call(self, m);
+            }
+            fn visit_macro(&mut self, m: &'ast syn::Macro) {
+                let t = m.tokens.to_string().replace(' ', "");
+                if t.contains(".wake()") || t.contains(".wake_by_ref()") { self.out.push(format!("\"{}:macro\"", self.rel)); }
+            }
+        }
+        let mut w = W { out: &mut wakes, rel: &rel };
+        w.visit_file(&file);
+    }
+    impls.sort(); markers.sort(); fields.sort();
+    let mut o = String::new();
+    o.push_str(&format!("def autoImpls : List AutoImpl := [\n  {}]\n", impls.join(",\n  ")));
+    o.push_str(&format!("def concurrentMarkers : List TyName := [{}]\n", markers.join(", ")));
+    o.push_str(&format!("def structFields : List (TyName × List TyName) := [\n  {}]\n", fields.join(",\n  ")));
+    o.push_str(&format!("def wakeSites : List String := [{}]\n", wakes.join(", ")));
+    Ok(o)
+}
+
 pub fn table_items(src: &mut Src, items: &mut Vec<Item>) {
     let mut add = |name: &str, origin: &str, body: Result<String, String>| {
         items.push(Item { name: name.into(), file: "Tables", origin: origin.into(), body });
@@ -362,5 +469,6 @@ pub fn table_items(src: &mut Src, items: &mut Vec<Item>) {
     add("localAcc", "src/ring_buffer/variants/local_rb.rs::IterManager", accessors(src, "src/ring_buffer/variants/local_rb.rs", "LocalMutRingBuf<S>", "localAcc"));
     add("skeletons", "call order of the composite operations", skeletons(src));
     add("storeKinds", "src/iterators/sync_iterators/prod_iter.rs: the store each push form performs", store_kinds(src));
+    add("sendSync", "every `unsafe impl Send/Sync`, `impl ConcurrentRB`, struct fields, wake call sites under src/", send_sync(src));
     add("pins", "cell primitives (check_zeroed, take_inner, inner_duplicate, Drop) and copy_from_slice_unchecked", pins(src));
 }
